@@ -483,6 +483,32 @@ func GenConfig(t *rapid.T, o GenOpts) *Config {
 			regs = append(regs, tw)
 		}
 	}
+	if o.SliceSvc {
+		// a variadic constructor: func(deps..., xs ...I0) declares a dependency on the service of
+		// type []I0 (if there is an un-keyed one) and is called with that slice spread out
+		pi, plife := -1, 0
+		for i, r := range regs {
+			for _, p := range r.Provides() {
+				if p.Ident == (Ident{T: TSl}) && !(p.Out < len(r.Outs) && r.Outs[p.Out].Nil) {
+					pi, plife = i, r.Life
+				}
+			}
+		}
+		if pi >= 0 {
+			var cands []int
+			for i := pi + 1; i < len(regs); i++ {
+				r := regs[i]
+				if r.Form != FormInstance && !r.UseIn && r.Kind == KindMakeFunc && (r.Life == Scoped || plife != Scoped) {
+					cands = append(cands, i)
+				}
+			}
+			if len(cands) > 0 && rapid.Bool().Draw(t, "variadic") {
+				r := &regs[rapid.SampledFrom(cands).Draw(t, "variadicReg")]
+				r.Deps = append(r.Deps, DepSpec{T: TSl})
+				r.Variadic = true
+			}
+		}
+	}
 	if o.GroupBridge && rapid.IntRange(0, 7).Draw(t, "bridge") == 0 {
 		regs = append(regs, genGroupBridge(t, regs)...)
 	}
